@@ -361,6 +361,75 @@ def run_method_owners(ctx, only=None):
                      "exception it returns raised; got: %s" % (role, owner, " on an async callable" if is_async else "", got))
 
 
+def callable_exception_objects(ctx):
+    """`error` given as an exception INSTANCE (or class) that happens to be callable - its class defines __call__, or it is a
+    class whose meta-class does: an instance is raised as that same object and is never called; a class is instantiated with
+    the message. x role x sync/async."""
+    import itertools
+    import icontract
+    from vf.progmodel.run import drive
+
+    calls = []
+
+    class CallableError(Exception):
+        def __call__(self, *a, **kw):
+            calls.append(("called", a, kw))
+            return KeyError("made by __call__")
+
+    class CallableBase(BaseException):
+        def __call__(self, x=None):
+            calls.append(("called", x))
+            return KeyError("made by __call__")
+
+    for cls, role, is_async in itertools.product((CallableError, CallableBase), ("require", "ensure", "invariant"), (False, True)):
+        inst = cls("the instance")
+        del calls[:]
+        try:
+            if role == "invariant":
+                if is_async:
+                    class K:
+                        def __init__(self):
+                            pass
+
+                        async def m(self, x=1):
+                            return x
+                else:
+                    class K:
+                        def __init__(self):
+                            pass
+
+                        def m(self, x=1):
+                            return x
+                obj = K()
+                K = icontract.invariant(lambda self: False, error=inst)(K)
+                obj.__class__ = K
+                call = obj.m
+            else:
+                if is_async:
+                    async def f(x=1):
+                        return x
+                else:
+                    def f(x=1):
+                        return x
+                call = getattr(icontract, role)(lambda: False, error=inst)(f)
+            try:
+                r = call()
+                if is_async:
+                    r = drive(r)
+                got = "returned %r" % (r,)
+            except BaseException as e:  # noqa
+                got = "raised the instance" if e is inst else "raised %s: %s" % (type(e).__name__, e)
+        except BaseException as e:  # noqa
+            got = "set-up failed with %s: %s" % (type(e).__name__, e)
+        ctx.case(["callable-exception", cls.__name__, role, is_async], True,
+                 sample={"directed": "error=<instance of an exception class with __call__> (%s), %s%s" % (cls.__name__, role, " (async)" if is_async else "")})
+        ctx.count("directed:callable-exception-objects")
+        if got != "raised the instance" or calls:
+            ctx.fail("callable-exception|%s|%s" % (cls.__name__, role), {"directed": "callable-exception"},
+                     "%s(..., error=<%s instance, whose class defines __call__>)%s: that very object must be raised and not called; "
+                     "got: %s, __call__ invocations: %r" % (role, cls.__name__, " on an async callable" if is_async else "", got, calls))
+
+
 class _Holder:
     def make(self):
         return ValueError("x")
@@ -412,6 +481,7 @@ def run(ctx, tier, seed, shard, nshards):
         run_bad_factories(ctx)
         run_invalid_kinds(ctx)
         run_method_owners(ctx)
+        callable_exception_objects(ctx)
         ctx.exhaustive = True
         ctx.extra["exhaustive_scope"] = "the form x role x kind x sync/async matrix and the invalid-kind table"
     n = 200 if tier == "quick" else 1500
@@ -430,6 +500,8 @@ def replay(ctx, case):
         return run_cell(ctx, form, role, kind, is_async, trig)
     if "invalid" in case:
         return run_invalid_kinds(ctx)
+    if case.get("directed") == "callable-exception":
+        return callable_exception_objects(ctx)
     if "method_owner" in case:
         return run_method_owners(ctx, only=case["method_owner"])
     D.replay_case(ctx, case, S.judge_c16)
